@@ -616,6 +616,113 @@ def run_check(tier, seed):
             run.count(('z3-history', text, order), nontrivial=True)
     context.set_context('int', vars={'m': 'nat', 'n': 'nat', 'k': 'nat', 'i': 'int', 'j': 'int'})
 
+    # booleans and sets: the goal is normalised (set operations to membership, constants true / false simplified away)
+    # before it reaches Z3.  Quantifier-free goals over P Q R :: bool, S T :: nat set, x y :: nat with the constants true,
+    # false and the empty set at every position of every connective; judged exactly over the assignments with
+    # x, y in {0, 1} and S, T subsets of {0, 1} (each is a HOL valuation, so a falsifying one refutes validity).
+    try:
+        context.set_context('set', vars={'S': 'nat set', 'T': 'nat set', 'x': 'nat', 'y': 'nat', 'P': 'bool', 'Q': 'bool', 'R': 'bool'})
+
+        def set_e(d):
+            if d <= 0 or r.random() < 0.5:
+                return r.choice(['S', 'T', '(empty_set::nat set)'])
+            return '(%s %s %s)' % (set_e(d - 1), r.choice(['Int', 'Un']), set_e(d - 1))
+
+        def atom():
+            c = r.randrange(8)
+            if c < 3:
+                return r.choice(['P', 'Q', 'R', 'true', 'false'])
+            if c == 3:
+                return '(%s Mem %s)' % (r.choice('xy'), set_e(1))
+            if c in (4, 5):
+                return '(%s = %s)' % (set_e(1), set_e(1))
+            if c == 6:
+                return '(%s Sub %s)' % (set_e(1), set_e(1))
+            return '(x = y)'
+
+        def form(d):
+            if d <= 0 or r.random() < 0.25:
+                return atom()
+            c = r.choice(['not', 'and', 'or', 'imp', 'iff', 'iff'])
+            if c == 'not':
+                return '~%s' % form(d - 1)
+            if c == 'iff':
+                return '(%s <--> %s)' % (form(d - 1), form(d - 1))
+            return '(%s %s %s)' % (form(d - 1), {'and': '&', 'or': '|', 'imp': '-->'}[c], form(d - 1))
+
+        def bs_eval(t, env):
+            if t.is_var():
+                return env[t.name]
+            if t.is_const():
+                if t.name == 'true':
+                    return True
+                if t.name == 'false':
+                    return False
+                if t.name == 'empty_set':
+                    return frozenset()
+                raise Outside(t.name)
+            if t.is_not():
+                return not bs_eval(t.arg, env)
+            if t.is_conj():
+                return bs_eval(t.arg1, env) and bs_eval(t.arg, env)
+            if t.is_disj():
+                return bs_eval(t.arg1, env) or bs_eval(t.arg, env)
+            if t.is_implies():
+                return (not bs_eval(t.arg1, env)) or bs_eval(t.arg, env)
+            if t.is_equals():
+                return bs_eval(t.arg1, env) == bs_eval(t.arg, env)
+            if t.is_comb('member', 2):
+                return bs_eval(t.arg1, env) in bs_eval(t.arg, env)
+            if t.is_comb('inter', 2):
+                return bs_eval(t.arg1, env) & bs_eval(t.arg, env)
+            if t.is_comb('union', 2):
+                return bs_eval(t.arg1, env) | bs_eval(t.arg, env)
+            if t.is_comb('subset', 2):
+                return bs_eval(t.arg1, env) <= bs_eval(t.arg, env)
+            raise Outside(repr(t))
+
+        subsets = [frozenset(), frozenset([0]), frozenset([1]), frozenset([0, 1])]
+        fixed = ['false = P', 'P = false', 'true = P', '(empty_set::nat set) = S', 'S = (empty_set::nat set)', '(empty_set::nat set) = S Int T',
+                 '~(false = P) --> Q', '(x Mem (empty_set::nat set)) = (x Mem S)', '(false <--> P) --> ~P', '(P <--> false) --> ~P',
+                 '(true <--> P) --> P', '(P <--> true) --> P', 'false --> P', 'P --> true', '(P & true) <--> P', '(false | P) <--> P']
+        texts = fixed + [form(r.choice([1, 2, 3])) for _ in range(150 * scale)]
+        n_bs = n_bs_solved = 0
+        for text in texts:
+            try:
+                goal = parser.parse_term(text)
+                solved = z3wrapper.solve(goal)
+            except RecursionError:
+                raise
+            except Exception as e:
+                run.stat('boolset_exc:' + type(e).__name__)
+                continue
+            n_bs += 1
+            run.stat('z3:boolset:%s' % ('solved' if solved else 'unsolved'))
+            run.count(('z3-boolset', text), nontrivial=solved)
+            if not solved:
+                continue
+            n_bs_solved += 1
+            cm = None
+            try:
+                for vals in itertools.product([False, True], [False, True], [False, True], subsets, subsets, [0, 1], [0, 1]):
+                    env = dict(zip(['P', 'Q', 'R', 'S', 'T', 'x', 'y'], vals))
+                    if not bs_eval(goal, env):
+                        cm = {k: (sorted(v) if isinstance(v, frozenset) else v) for k, v in env.items()}
+                        break
+            except Outside:
+                run.stat('boolset_outside_evaluator')
+                continue
+            if cm is not None:
+                run.violation('property', 'Z3 step accepts a boolean / set goal that is false under a valuation: %s' % text,
+                              dict(goal=text, counter_model=cm, normalised=sstr(z3wrapper.norm_term(goal)),
+                                   reproduce="z3wrapper.solve(parser.parse_term(goal)) in theory set with S T :: nat set, x y :: nat, P Q R :: bool"),
+                              key='C06:z3-accepts-invalid:bool-set')
+        run.cov['search_bool_set'] = dict(goals=n_bs, accepted=n_bs_solved)
+    except RecursionError:
+        raise
+    except Exception as e:
+        run.stat('boolset_context:' + type(e).__name__ + ':' + str(e)[:80])
+
     # reals and friends: quantifier-free, exact counter-model search
     try:
         context.set_context('real', vars={'x': 'real', 'y': 'real', 'z': 'real', 'm': 'nat', 'n': 'nat', 'f': 'nat => nat', 'g': 'nat => nat'})
